@@ -2103,10 +2103,13 @@ class Series(ContainerOperand):
         if not isinstance(values, str) and hasattr(values, '__len__'):
             if not values.__class__ is np.ndarray:
                 values, _ = iterable_to_array_1d(values)
-        return np.searchsorted(self.values, #type: ignore [no-any-return]
+        post = np.searchsorted(self.values,
                 values,
                 'left' if side_left else 'right',
                 )
+        if post.__class__ is np.ndarray:
+            post.flags.writeable = False
+        return post #type: ignore [no-any-return]
 
     @doc_inject(selector='searchsorted', label_type='loc (label)')
     def loc_searchsorted(self,
@@ -2131,13 +2134,16 @@ class Series(ContainerOperand):
 
         mask = sel == length
         if not mask.any():
-            return self._index.values[sel] #type: ignore [no-any-return]
+            post = self._index.values[sel]
+            if post.__class__ is np.ndarray:
+                post.flags.writeable = False
+            return post #type: ignore [no-any-return]
 
         post = np.empty(len(sel),
                 dtype=resolve_dtype(self._index.dtype,
                 dtype_from_element(fill_value))
                 )
-        sel[mask] = 0 # set out of range values to zero
+        sel = np.where(mask, 0, sel) # set out of range values to zero
         post[:] = self._index.values[sel]
         post[mask] = fill_value
         post.flags.writeable = False
